@@ -6,6 +6,8 @@ import (
 	"time"
 
 	"cosmossdk.io/math"
+	sdk "github.com/cosmos/cosmos-sdk/types"
+	banktypes "github.com/cosmos/cosmos-sdk/x/bank/types"
 
 	ophosttypes "github.com/initia-labs/OPinit/x/ophost/types"
 
@@ -58,7 +60,24 @@ func singlePerturbations(m *ophosttypes.MsgFinalizeTokenWithdrawal, cx c03Ctx) [
 			ps = append(ps, perturbation{"proof.bit", func(m *ophosttypes.MsgFinalizeTokenWithdrawal) { m.WithdrawalProofs[e][i] ^= 1 << uint((i+e)%8) }})
 		}
 	}
+	for e := range m.WithdrawalProofs {
+		e := e
+		ps = append(ps,
+			perturbation{"proof.elem.trailing_byte", func(m *ophosttypes.MsgFinalizeTokenWithdrawal) { m.WithdrawalProofs[e] = append(m.WithdrawalProofs[e], 0x00) }},
+			perturbation{"proof.elem.trailing_32", func(m *ophosttypes.MsgFinalizeTokenWithdrawal) {
+				m.WithdrawalProofs[e] = append(m.WithdrawalProofs[e], bytes.Repeat([]byte{0xab}, 32)...)
+			}},
+			perturbation{"proof.elem.short", func(m *ophosttypes.MsgFinalizeTokenWithdrawal) { m.WithdrawalProofs[e] = m.WithdrawalProofs[e][:31] }},
+		)
+	}
 	ps = append(ps,
+		perturbation{"storage_root.trailing_byte", func(m *ophosttypes.MsgFinalizeTokenWithdrawal) { m.StorageRoot = append(m.StorageRoot, 0) }},
+		perturbation{"block_hash.trailing_byte", func(m *ophosttypes.MsgFinalizeTokenWithdrawal) { m.LastBlockHash = append(m.LastBlockHash, 0) }},
+		perturbation{"version.two_bytes", func(m *ophosttypes.MsgFinalizeTokenWithdrawal) { m.Version = append(m.Version, 0) }},
+		perturbation{"storage_root.short", func(m *ophosttypes.MsgFinalizeTokenWithdrawal) { m.StorageRoot = m.StorageRoot[:31] }},
+		perturbation{"amount+2*2^64", func(m *ophosttypes.MsgFinalizeTokenWithdrawal) {
+			m.Amount.Amount = m.Amount.Amount.Add(math.NewIntFromUint64(1 << 63).MulRaw(4))
+		}},
 		perturbation{"sequence+1", func(m *ophosttypes.MsgFinalizeTokenWithdrawal) { m.Sequence++ }},
 		perturbation{"sequence-1", func(m *ophosttypes.MsgFinalizeTokenWithdrawal) { m.Sequence-- }},
 		perturbation{"sequence.highbit", func(m *ophosttypes.MsgFinalizeTokenWithdrawal) { m.Sequence ^= 1 << 63 }},
@@ -127,6 +146,11 @@ func refVerify(l1 *sim.L1, m *ophosttypes.MsgFinalizeTokenWithdrawal) (exists, r
 	if !m.Amount.Amount.IsUint64() || len(m.Version) != 1 || len(m.StorageRoot) != 32 || len(m.LastBlockHash) != 32 {
 		return
 	}
+	for _, p := range m.WithdrawalProofs {
+		if len(p) != 32 {
+			return // proof elements are 32-byte node hashes
+		}
+	}
 	o, err := l1.Q.OutputProposal(l1.Ctx, &ophosttypes.QueryOutputProposalRequest{BridgeId: m.BridgeId, OutputIndex: m.OutputIndex})
 	if err != nil {
 		return
@@ -157,6 +181,13 @@ func checkC03(run *mon.Run, rng *mon.Rand, thorough bool) {
 				if r := env.Deposit(env.Users[0], b, "l2", "uinit", math.NewInt(500_000_000), nil); r.Class != sim.OK {
 					panic(r.ErrString())
 				}
+			}
+			// the escrow also holds more than 2^64 units (third-party transfer), so that amount forgeries are payable
+			whale := sim.NewAccount("c03whale")
+			huge := math.NewIntFromUint64(1 << 63).MulRaw(64)
+			env.L1.Fund(whale.Addr, sdk.NewCoin("uinit", huge))
+			if r := env.L1.Deliver(banktypes.NewMsgSend(whale.Addr, ophosttypes.BridgeAddress(1), sdk.NewCoins(sdk.NewCoin("uinit", huge)))); r.Class != sim.OK {
+				panic(r.ErrString())
 			}
 			mk := func(bridge uint64, base int, cnt int) []Withdrawal {
 				ws := make([]Withdrawal, cnt)
@@ -245,6 +276,31 @@ func checkC03(run *mon.Run, rng *mon.Rand, thorough bool) {
 					}
 				}
 			}
+		}
+	}
+	// ---- the stored root itself perturbed: a claim for the true commitment must fail against an output that
+	// stores a root differing from it in a single byte (catches truncated / partial root comparisons) ----
+	run.Declare("C03.stored_root_must_match_entirely", 32)
+	{
+		env := newL1Env(1, []time.Duration{period})
+		user := env.Users[1]
+		if r := env.Deposit(env.Users[0], 1, "l2", "uinit", math.NewInt(500_000_000), nil); r.Class != sim.OK {
+			panic(r.ErrString())
+		}
+		ws := []Withdrawal{{1, 1, "l2a", user.String(), "uinit", 10}, {1, 2, "l2b", user.String(), "uinit", 20}, {1, 3, "l2c", user.String(), "uinit", 30}}
+		for pos := 0; pos < 32; pos++ {
+			o := BuildOutput(1, ws, ref.PadLast, rng)
+			truth := o.OutputRoot
+			o.OutputRoot[pos] ^= 0x01 // what the proposer stores
+			if res := env.Propose(o); res.Class != sim.OK {
+				panic(res.ErrString())
+			}
+			env.L1.NextBlock(period + time.Second)
+			o.OutputRoot = truth
+			res := env.L1.Branch().Deliver(o.Claim(0, user.String()))
+			run.Evaluations++
+			run.Check("C03.stored_root_must_match_entirely", res.Class != sim.OK, "c03.partial_root_comparison", []string{fmt.Sprintf("output %d stores the commitment with byte %d flipped", o.Index, pos)}, "claim accepted although the stored output root differs from the commitment in byte %d", pos)
+			run.Distinct(fmt.Sprintf("C03/storedroot/%d", pos))
 		}
 	}
 	for k, v := range kinds {
